@@ -247,7 +247,12 @@ func runC07(c *Ctx) {
 			for k := 0; k < 40; k++ {
 				p.Items = append(p.Items, dat())
 			}
-			p.Items = append(p.Items, &asm.Org{E: e1})
+			if r.Bool() {
+				p.Items = append(p.Items, &asm.Org{E: e1})
+			} else {
+				p.EndArg = e1 // the END argument is the other way to give the entry point
+				kind = "end"
+			}
 		case probe == 7: // FOR count
 			kind = "for"
 			p.Items = append(p.Items, &asm.For{Counter: "i", Count: e1, Body: []asm.Item{&asm.Instr{Op: "dat", A: asm.Operand{Mode: '#', E: asm.Ref{Name: "i"}}, B: &asm.Operand{Mode: '#', E: asm.Lit{V: 0}}}}})
@@ -299,7 +304,7 @@ func runC07(c *Ctx) {
 				return
 			}
 			if wd.Start != mn.Start {
-				c.Violate("C07:value:org", fmt.Sprintf("entry point: gmars %d, expected %d", wd.Start, mn.Start), cs())
+				c.Violate("C07:value:"+kind, fmt.Sprintf("entry point: gmars %d, expected %d", wd.Start, mn.Start), cs())
 				return
 			}
 			verdictChecked = true
